@@ -452,9 +452,9 @@ pub fn run(ctx: &Ctx) -> i32 {
             tier: ctx.tier_name(),
             seed: ctx.seed,
             exhaustive: true,
-            rule: format!("reals: {}; integers within 2^12 of 0, +-2^15, +-2^24, +-2^31; all reduced ratios n/d with |n|<=40, d<=40 plus i32 boundary ratios; every Unicode scalar value as a character; every identifier of length <= 3 over {:?} that is one identifier token; results of the C09 grid; every value tree with <= {} nodes over 15 atom representatives (incl. the symbol quote as a list head) (proper lists, dotted tails, mutable and literal vectors, empty vectors in tails) all single-child nesting chains to depth 6, and values in which one vector object occurs two or three times; distinct = distinct printed texts (floats: a 1/4099 subsample)", if thorough { "all 2^32 bit patterns (finite ones judged)".to_string() } else { "every exponent x sign x 4096 high mantissa patterns x low bits {0,1,all ones}".to_string() }, ident_alphabet().iter().collect::<String>(), max_nodes),
+            rule: format!("reals: {}; integers within 2^12 of 0, +-2^15, +-2^24, +-2^31; all reduced ratios n/d with |n|<=40, d<=40 plus i32 boundary ratios; every Unicode scalar value as a character; every identifier of length <= 3 over {:?} that is one identifier token; results of the C09 grid; every value tree with <= {} nodes over 15 atom representatives (incl. the symbol quote as a list head) (proper lists, dotted tails, mutable and literal vectors, empty vectors in tails) all single-child nesting chains to depth 6, and values in which one vector object occurs two or three times; distinct = distinct printed texts (floats: a 1/4099 subsample); lists, dotted lists and vectors of every length <= 300 (thorough 600) with distinct elements, long symbols, a long vector in tail position", if thorough { "all 2^32 bit patterns (finite ones judged)".to_string() } else { "every exponent x sign x 4096 high mantissa patterns x low bits {0,1,all ones}".to_string() }, ident_alphabet().iter().collect::<String>(), max_nodes),
             bounds: json!({"reals": n_float, "integers": n_int, "ratios": n_rat, "characters": n_char, "identifiers": n_id, "trees": ntrees, "tree_max_nodes": max_nodes}),
-            assumptions: vec!["atoms take the path display -> real Lexer -> Interpreter::read_literal; non-float atoms, every 64th float and all trees additionally go through eval of the quoted text; lists, dotted lists and vectors of every length <= 300 (thorough 600) with distinct elements, long symbols, a long vector in tail position".into()],
+            assumptions: vec!["atoms take the path display -> real Lexer -> Interpreter::read_literal; non-float atoms, every 64th float and all trees additionally go through eval of the quoted text".into()],
             wall_s: ctx.elapsed(),
             extra: json!({}),
         },
